@@ -33,8 +33,14 @@ theorem xor_pack (d b : Int) (sem : Nat) (hd : -366 ≤ d ∧ d ≤ 366) (hb : 0
   rw [e3, e4, xor_low 2 _ _ (by omega)]
   unfold toS32 u32; split <;> omega
 
+/-- within the README's range the packed value is the xor of the three fields -/
+theorem packShift_eq (d b : Int) (sem : Nat) (hd : -366 ≤ d ∧ d ≤ 366) (hb : -366 ≤ b ∧ b ≤ 366) :
+    packShift d b sem = xor32 (xor32 (d * 65536) (b * 4)) sem := by
+  unfold packShift
+  rw [if_neg (by omega)]
+
 theorem go_end (fuel : Nat) (spec : List Char) (sem : Nat) (b d tmp : Int) (h : strtol spec = (tmp, [])) :
-    snarfShiftGo (fuel+1) spec sem b d = xor32 (xor32 ((d + tmp) * 65536) (b * 4)) sem := by
+    snarfShiftGo (fuel+1) spec sem b d = packShift (d + tmp) b sem := by
   rw [snarfShiftGo]; simp only [h]
 
 theorem go_comma (fuel : Nat) (spec r : List Char) (sem : Nat) (b d tmp : Int) (h : strtol spec = (tmp, ',' :: r)) :
@@ -47,7 +53,21 @@ def finB (sem : Nat) (b d : Int) (neg : Bool) : Int :=
   let sem := sem ||| (if b < 0 ∨ (b = 0 ∧ neg) then 1 else 0)
   let sem := sem ||| ((if b = 0 then 1 else 0) <<< 1)
   let b := if b ≥ 0 then b else -b
+  packShift d b sem
+
+/-- `finB` with the xor spelled out, as it is for values within the README's range -/
+def finBx (sem : Nat) (b d : Int) (_neg : Bool) : Int :=
+  let neg := _neg
+  let sem := sem ||| (if b < 0 ∨ (b = 0 ∧ neg) then 1 else 0)
+  let sem := sem ||| ((if b = 0 then 1 else 0) <<< 1)
+  let b := if b ≥ 0 then b else -b
   xor32 (xor32 (d * 65536) (b * 4)) sem
+
+theorem finB_eq_finBx (sem : Nat) (b d : Int) (neg : Bool) (hb : -366 ≤ b ∧ b ≤ 366) (hd : -366 ≤ d ∧ d ≤ 366) :
+    finB sem b d neg = finBx sem b d neg := by
+  unfold finB finBx
+  simp only []
+  rw [packShift_eq _ _ _ hd (by split <;> omega)]
 
 theorem go_B (fuel : Nat) (spec : List Char) (sem : Nat) (b d tmp : Int) (h : strtol spec = (tmp, ['B'])) :
     snarfShiftGo (fuel+1) spec sem b d = finB sem (b + tmp) d (decide (spec.head? = some '-')) := by
